@@ -7,7 +7,10 @@ import (
 	"time"
 )
 
-const epocEnv = "SOURCE_DATE_EPOC"
+const (
+	epocEnv       = "SOURCE_DATE_EPOCH"
+	epocEnvLegacy = "SOURCE_DATE_EPOC" // misspelled name read by earlier releases
+)
 
 var (
 	errInvalidEpoc = errors.New("invalid epoc var")
@@ -24,6 +27,9 @@ func timeNow() time.Time {
 
 func timeEpocEnv() (time.Time, error) {
 	sec := os.Getenv(epocEnv)
+	if sec == "" {
+		sec = os.Getenv(epocEnvLegacy)
+	}
 	if sec == "" {
 		return time.Time{}, errInvalidEpoc
 	}
